@@ -303,6 +303,8 @@ def gen_case(rng, collide=False, big=False, defaults=False):
                ign=rng.choice([0, 0, 0, 0, 0, 0, 1, 2, 3]), maxs=MAXS)
     if defaults:
         cfg.update(maxc=512, maxb=3145728)
+    if rng.random() < 0.08:
+        cfg["rec"] = rng.choice([0, 1, 5, 30, 30, 100, 2 ** 31, 2 ** 32 - 1])   # Stream::enable_recovery_mode(window)
     if rng.random() < 0.04:
         cfg["nocb"] = 1                                      # no new-stream callback installed: callback_not_set path
     ops = ["case " + " ".join(f"{k}={v}" for k, v in cfg.items())]
@@ -529,6 +531,8 @@ def classify(op, impl):
             tags.append(name)
     if "partial=1" in ev and "new " in ev:
         tags.append("attach")
+    if " rec=1" in impl:
+        tags.append("recovery")
     if " civn=" in impl and (" civn=0 " not in impl or " sivn=0 " not in impl):
         tags.append("sacked")
     return "pkt:" + w[2] + ":" + ("+".join(tags) if tags else ("untracked" if impl.endswith("| none") else "quiet"))
